@@ -62,7 +62,7 @@ const SUFFIXES: &[&str] = &["", " \"q\\é", "#ünï/{x}", "\t'€😀", ":a,b|c"
 /// the text-validation vocabulary has fixed concrete names
 pub const TV_SET: &str = "https://w3id.org/stam/extensions/stam-textvalidation/";
 pub const TP_SET: &str = "https://w3id.org/stam/extensions/stam-transpose/";
-const RESERVED: &[&str] = &["checksum", "text", "delimiter", "Transposition", "Resegmentation"];
+const RESERVED: &[&str] = &["checksum", "text", "delimiter", "Transposition", "Resegmentation", "1", "1.5", "-7", "yes"];
 
 impl IdStyle {
     fn suffix(&self) -> &'static str {
